@@ -341,8 +341,9 @@ func checkFetchersValidate(c *Ctx, rule string) {
 			}
 		}
 	}
-	if nSites < 2 {
-		c.Violation(rule, "Client.Get/getters", get.Pos(), fmt.Sprintf("expected the block and the header getter handed to the segment caches, resolved %d", nSites))
+	// two cached fetches with a getter each, or one that is handed either getter by a helper
+	if nSites < 2 && len(getters) < 2 {
+		c.Violation(rule, "Client.Get/getters", get.Pos(), fmt.Sprintf("expected the block and the header getter handed to the segment caches, resolved %d", len(getters)))
 	}
 	sortFuncs(getters)
 	// a getter that only hands on the results of another function (`return segmentOf(c, …, start, limit, …)`)
@@ -1350,6 +1351,39 @@ func getterFuncs(v ssa.Value) []*ssa.Function {
 				if _, isFn := rv.Type().Underlying().(*types.Signature); isFn {
 					if _, isCall := stripConv(rv).(*ssa.Call); !isCall {
 						out = append(out, getterFuncs(rv)...)
+					}
+				}
+			}
+		}
+		return out
+	}
+	// a member of the struct a helper hands back (`src, ok := c.blockSource(filter); … src.get`): what each
+	// return of the helper put there
+	if hc, k, ok := memberOfCallResult(v); ok {
+		h := staticCallee(hc)
+		if h == nil || h.Blocks == nil || !isRepoFunc(h) {
+			return nil
+		}
+		var out []*ssa.Function
+		for _, r := range returnsOf(h) {
+			u, isU := stripConv(returnValues(r)[0]).(*ssa.UnOp)
+			if !isU || u.Op != token.MUL {
+				continue
+			}
+			al, isAl := u.X.(*ssa.Alloc)
+			if !isAl {
+				continue
+			}
+			for _, ref := range *al.Referrers() {
+				fa, isFA := ref.(*ssa.FieldAddr)
+				if !isFA || fa.Field != k {
+					continue
+				}
+				for _, r2 := range *fa.Referrers() {
+					if st, isSt := r2.(*ssa.Store); isSt && st.Addr == ssa.Value(fa) {
+						if _, isCall := stripConv(st.Val).(*ssa.Call); !isCall {
+							out = append(out, getterFuncs(st.Val)...)
+						}
 					}
 				}
 			}
